@@ -288,8 +288,8 @@ pub fn clone_hook() {
 // ---------------------------------------------------------------------------------------------
 // element types
 
-pub trait KeyT: Hash + Eq + Clone + 'static {
-    type Q: Hash + equivalent::Equivalent<Self>;
+pub trait KeyT: Hash + Eq + Clone + Send + Sync + 'static {
+    type Q: Hash + equivalent::Equivalent<Self> + Sync;
     const TRACKED: bool;
     fn make(class: u32) -> Self;
     fn class(&self) -> u32;
@@ -298,7 +298,7 @@ pub trait KeyT: Hash + Eq + Clone + 'static {
     fn from_q(q: &Self::Q) -> Self;
 }
 
-pub trait ValT: Clone + PartialEq + 'static {
+pub trait ValT: Clone + PartialEq + Send + Sync + 'static {
     fn make(v: u32) -> Self;
     fn v(&self) -> u32;
     fn id(&self) -> u32;
@@ -471,7 +471,7 @@ array_key!(K5, 5);
 array_key!(K6, 6);
 array_key!(K7, 7);
 
-pub trait Pad: Copy + Default + 'static {}
+pub trait Pad: Copy + Default + Send + Sync + 'static {}
 impl Pad for () {}
 #[derive(Clone, Copy)]
 pub struct Pad8(pub [u8; 8]);
